@@ -215,4 +215,11 @@ def c18_e(ctx: Ctx):
     return sentinel_discipline(ctx, "C18-e", [("signac.project:Project.detect_schema", "subset", "an empty selection (a cursor that matches nothing) must give the empty schema, not the schema of the whole project")])
 
 
-RULES = [c18_a, c18_b, c18_c, c18_d, c18_e]
+@rule("C18-f")
+def c18_f(ctx: Ctx):
+    """Per-job / per-entry loops are independent: nothing read in one iteration was computed in another."""
+    from .lints import per_item_loops
+    return per_item_loops(ctx, "C18-f", [('signac.schema:_build_job_statepoint_index', 'a key is reported with the values collected for the previous key'), ('signac.project:Project.detect_schema', 'a key is reported with the types collected for the previous key'), ('signac.diff:diff_jobs', "a job's diff is computed from another job's state point")])
+
+
+RULES = [c18_a, c18_b, c18_c, c18_d, c18_e, c18_f]
